@@ -34,7 +34,7 @@ PROPS = {
     "C04": dict(profiles=[("events", False, 4), ("events", True, 8), ("mixed", False, 4)], alphabet=EVENT_KINDS, mc=["MC_Events"]),
     "C05": dict(profiles=[("channels", False, 4), ("channels", True, 8), ("mixed", False, 4)], alphabet=CHAN_KINDS, mc=["MC_Channels"]),
     "C09": dict(profiles=[("mixed", True, 14), ("channels", True, 14), ("calls", True, 14), ("intro", False, 10)], alphabet=ALL_KINDS, mc=["MC_Lifecycle"]),
-    "C10": dict(profiles=[("listeners", False, 4), ("listeners", True, 8), ("mixed", False, 4)], alphabet=LST_KINDS, mc=["MC_Listeners"]),
+    "C10": dict(profiles=[("listeners", False, 4), ("listeners", True, 8), ("mixed", False, 4)], alphabet=LST_KINDS, mc=["MC_Listeners", "MC_ListenersF"]),
     "C11": dict(profiles=[("abuse", False, 5), ("mixed", False, 6), ("calls", False, 5), ("intro", False, 5)], alphabet=ALL_KINDS, mc=["MC_Abuse"]),
     "C12": dict(profiles=[("mixed", True, 3), ("calls", True, 3), ("events", True, 3)], alphabet=ALL_KINDS, mc=["MC_Versions_14_20", "MC_Versions_20_14", "MC_Versions_15_19", "MC_Versions_17_18"]),
 }
@@ -108,8 +108,8 @@ def fuzz_and_validate(prop, tier, seed, verdict, cov):
 
 
 # specification -> implementation: behaviours enumerated by TLC from MC_Replay.tla, replayed on the real broker
-REPLAY = {"C02": "Calls", "C03": "Registry", "C04": "Events", "C05": "Channels", "C09": "Lifecycle", "C10": "Listeners",
-          "C11": "Abuse", "C12": "Versions"}
+REPLAY = {"C02": ["Calls"], "C03": ["Registry"], "C04": ["Events"], "C05": ["Channels"], "C09": ["Lifecycle"],
+          "C10": ["Listeners", "ListenersF"], "C11": ["Abuse"], "C12": ["Versions"]}
 REPLAY_TIERS = {
     "quick": dict(exhaustive_cap=1500, sim=(250, 150), shards=4, workers=8, timeout=900),
     "thorough": dict(exhaustive_cap=24000, sim=(3000, 200), shards=12, workers=12, timeout=3000),
@@ -142,15 +142,23 @@ def spec_replay(prop, tier, seed, verdict, cov):
     configuration, by simulation for the deeper one); each is replayed on the real broker; the recorded traces
     are judged by the observers (VIOLATION) and by Broker.tla (DRIFT)."""
     from concurrent.futures import ThreadPoolExecutor
-    name = REPLAY[prop]
+    names = REPLAY[prop]
+    name = names[0]
     rt = REPLAY_TIERS[tier]
     wd = vlib.workdir(f"{prop}-{tier}-replay")
-    ex = _exhaustive_behaviours(name, wd, rt)
     sim = vlib.tlc_behaviours("MC_Replay.tla", f"RS_{name}.cfg", os.path.join(wd, "tlc-simulate.out"), simulate=rt["sim"], seed=seed,
                               timeout=rt["timeout"])
-    all_ex = ex["behaviours"]
-    stride = max(1, (len(all_ex) + rt["exhaustive_cap"] - 1) // rt["exhaustive_cap"])
-    chosen = all_ex[(seed - 1) % stride::stride] + sim["behaviours"]
+    chosen = []
+    exhaustive = []
+    for nm in names:
+        ex = _exhaustive_behaviours(nm, wd, rt)
+        all_ex = ex["behaviours"]
+        stride = max(1, (len(all_ex) + rt["exhaustive_cap"] - 1) // rt["exhaustive_cap"])
+        part = all_ex[(seed - 1) % stride::stride]
+        chosen += part
+        exhaustive.append(dict(config=f"R_{nm}.cfg", behaviours=len(all_ex), states=ex["states"], complete=ex["complete"], wall_s=ex["wall_s"],
+                               cached=bool(ex.get("cached")), replayed=len(part), stride=stride))
+    chosen += sim["behaviours"]
     bfile = os.path.join(wd, "behaviours.ndjson")
     with open(bfile, "w") as f:
         f.write("\n".join(chosen) + "\n")
@@ -184,8 +192,7 @@ def spec_replay(prop, tier, seed, verdict, cov):
                 log(f"DRIFT property={prop} the broker deviates from Broker.tla: {why} (replayed behaviour, record {idx + off})")
     cov["drift"] += drifts
     cov["replay"] = dict(
-        exhaustive=dict(config=f"R_{name}.cfg", behaviours=len(all_ex), states=ex["states"], complete=ex["complete"], wall_s=ex["wall_s"], cached=bool(ex.get("cached")),
-                        replayed=len(all_ex[(seed - 1) % stride::stride]), stride=stride),
+        exhaustive=exhaustive,
         simulated=dict(config=f"RS_{name}.cfg", behaviours=len(sim["behaviours"]), states=sim["states"], wall_s=sim["wall_s"]),
         behaviours_replayed=summ.get("behaviours", 0), inputs=summ.get("inputs", 0), records=len(recs),
         model_cookies_unbound=summ.get("unbound", 0), real_cookies_surplus=summ.get("surplus", 0),
